@@ -43,6 +43,50 @@ type mWorld struct {
 	txt    []string
 	start  time.Time
 	mnow   int64 // model time accounted so far (ms)
+
+	relAt   map[int]time.Time // when the scheduler released the handle's parked operation
+	maxLat  time.Duration     // longest release -> applied latency seen (scheduling jitter of this machine)
+	settled time.Time         // when settleBoundary last found the expiry at a safe distance
+}
+
+// jitter samples how late a 5 ms timer fires: a loaded machine makes the real-time assumptions of this family
+// (an operation is applied within the 150 ms margin after the scheduler decided on it) unreliable.
+type jitter struct {
+	mu     sync.Mutex
+	spikes []time.Time
+	stop   chan struct{}
+}
+
+func newJitter() *jitter {
+	j := &jitter{stop: make(chan struct{})}
+	go func() {
+		for {
+			select {
+			case <-j.stop:
+				return
+			default:
+			}
+			t0 := time.Now()
+			time.Sleep(5 * time.Millisecond)
+			if over := time.Since(t0) - 5*time.Millisecond; over > 40*time.Millisecond {
+				j.mu.Lock()
+				j.spikes = append(j.spikes, time.Now())
+				j.mu.Unlock()
+			}
+		}
+	}()
+	return j
+}
+
+func (j *jitter) spikeBetween(a, b time.Time) bool {
+	j.mu.Lock()
+	defer j.mu.Unlock()
+	for _, t := range j.spikes {
+		if t.After(a) && t.Before(b.Add(50*time.Millisecond)) {
+			return true
+		}
+	}
+	return false
 }
 
 // label appends a label after accounting the real time that has passed as a clock advance.
@@ -102,9 +146,9 @@ func (w *mWorld) settleBoundary() {
 	}
 }
 
-func runMutexScenario(seed int64, it int) (labels sxList, txt []string, violations []Violation, nhandles int) {
+func runMutexScenario(seed int64, it int) (labels sxList, txt []string, violations []Violation, nhandles int, maxLat time.Duration) {
 	rng := newRng(seed*1000003 + int64(it))
-	w := &mWorld{srv: memongo.New(), byCli: map[string]*mAgent{}}
+	w := &mWorld{srv: memongo.New(), byCli: map[string]*mAgent{}, relAt: map[int]time.Time{}}
 	nh := 2 + rng.Intn(3)
 	nhandles = nh
 	idents := []string{"", "", "idA", "idA", "idB"}
@@ -134,6 +178,14 @@ func runMutexScenario(seed int64, it int) (labels sxList, txt []string, violatio
 			return
 		}
 		r := resCode(op.Fault)
+		w.mu.Lock()
+		if t0, ok := w.relAt[a.idx]; ok {
+			if d := time.Since(t0); d > w.maxLat {
+				w.maxLat = d
+			}
+			delete(w.relAt, a.idx)
+		}
+		w.mu.Unlock()
 		switch op.Cmd {
 		case "find":
 			if a.inLock && a.calls > 1 {
@@ -248,6 +300,9 @@ func runMutexScenario(seed int64, it int) (labels sxList, txt []string, violatio
 				}
 			}
 			a.waiting = false
+			w.mu.Lock()
+			w.relAt[a.idx] = time.Now()
+			w.mu.Unlock()
 			a.release <- fault
 			advance(a)
 		case choice == 2 && len(idle) > 0: // Unlock
@@ -298,6 +353,9 @@ func runMutexScenario(seed int64, it int) (labels sxList, txt []string, violatio
 				delete(parkedOps, a.idx)
 				w.settleBoundary()
 				a.waiting = false
+				w.mu.Lock()
+				w.relAt[a.idx] = time.Now()
+				w.mu.Unlock()
 				a.release <- ""
 				advance(a)
 				continue
@@ -326,7 +384,7 @@ func runMutexScenario(seed int64, it int) (labels sxList, txt []string, violatio
 	}
 	w.srv.PreApply, w.srv.PostApply = nil, nil
 	w.srv.Close()
-	return w.labels, w.txt, nil, nh
+	return w.labels, w.txt, nil, nh, w.maxLat
 }
 
 func runMutex(cfg *runCfg) {
@@ -344,13 +402,16 @@ func runMutex(cfg *runCfg) {
 		}
 	}
 	type res struct {
-		it     int
-		labels sxList
-		txt    []string
-		nh     int
+		it       int
+		labels   sxList
+		txt      []string
+		nh       int
+		unstable bool
 	}
 	results := make([]res, n)
-	sem := make(chan struct{}, 16)
+	jit := newJitter()
+	defer close(jit.stop)
+	sem := make(chan struct{}, 8)
 	var wg sync.WaitGroup
 	for it := 0; it < n; it++ {
 		if cfg.only >= 0 && it != cfg.only {
@@ -361,14 +422,27 @@ func runMutex(cfg *runCfg) {
 		go func(it int) {
 			defer wg.Done()
 			defer func() { <-sem }()
-			l, t, _, nh := runMutexScenario(cfg.seed, it)
-			results[it] = res{it, l, t, nh}
+			// a scenario during which this machine was too slow for the family's real-time margins says nothing
+			// about the code: it is run again (up to 3 times) and dropped if the machine stays slow
+			for try := 0; try < 3; try++ {
+				t0 := time.Now()
+				l, t, _, nh, lat := runMutexScenario(cfg.seed, it)
+				unstable := lat > 60*time.Millisecond || jit.spikeBetween(t0, time.Now())
+				results[it] = res{it, l, t, nh, unstable}
+				if !unstable {
+					break
+				}
+			}
 		}(it)
 	}
 	wg.Wait()
 	for it := 0; it < n; it++ {
 		r := results[it]
 		if r.labels == nil {
+			continue
+		}
+		if r.unstable {
+			meta.Count("dropped-machine-too-slow", "1")
 			continue
 		}
 		cw.Comment(fmt.Sprintf("scenario %d seed %d handles=%d :: replay: ffh mutex -seed %d -n %d -only %d :: %s", it, cfg.seed, r.nh, cfg.seed, n, it, strings.Join(r.txt, " ; ")))
